@@ -140,7 +140,7 @@ def _sig_exc(phase: str, e: BaseException) -> str:
     return f"C02:foreign-exception:{phase}:{type(e).__name__}:{ps.norm_msg(str(e))[:60]}"
 
 
-def run_source(env_name: str, src: str, datasets: list[dict[str, Any]], res: ShardResult | None, budget: float = 3.0) -> list[tuple[str, Any, Any]]:
+def run_source(env_name: str, src: str, datasets: list[dict[str, Any]], res: ShardResult | None, budget: float = 3.0, modes: tuple[str, ...] = ("render",)) -> list[tuple[str, Any, Any]]:
     """Parse and render one source. Returns (sig, case_extra, observed)."""
     out: list[tuple[str, Any, Any]] = []
     env = envs()[env_name]
@@ -165,23 +165,30 @@ def run_source(env_name: str, src: str, datasets: list[dict[str, Any]], res: Sha
                 out.append((_sig_exc("parse", e), {"phase": "parse"}, f"{type(e).__name__}: {e}"))
                 t = None
             if t is not None:
-                for di, d in enumerate(datasets):
+                for di, d in itertools.product(range(len(datasets)), modes):
+                    di, phase = di, d
+                    d = datasets[di]
                     if res is not None:
                         res.evaluations += 1
                     try:
-                        t.render(**d)
+                        if phase == "render":
+                            t.render(**d)
+                        else:
+                            import asyncio
+
+                            asyncio.run(t.render_async(**d))
                     except LiquidError as e:
                         nontrivial = True
                         bad = printable_error(e)
                         if bad:
-                            out.append((f"C02:error-not-printable:render:{ps.norm_msg(bad)[:60]}", {"phase": "render", "data_index": di}, bad))
+                            out.append((f"C02:error-not-printable:{phase}:{ps.norm_msg(bad)[:60]}", {"phase": phase, "data_index": di}, bad))
                     except RecursionError:
                         if res is not None:
                             res.count("recursion_in_render")
                     except TimeBudget:
                         raise
                     except Exception as e:  # noqa: BLE001
-                        out.append((_sig_exc("render", e), {"phase": "render", "data_index": di}, f"{type(e).__name__}: {e}"))
+                        out.append((_sig_exc(phase, e), {"phase": phase, "data_index": di}, f"{type(e).__name__}: {e}"))
     except TimeBudget:
         out.append(("C02:cpu-budget-exceeded", {"phase": "any", "budget_s": budget}, f"did not finish within {budget} s"))
     if res is not None:
@@ -647,12 +654,12 @@ def plan(tier: str, seed: int):
     return shards, meta
 
 
-def _sources(res: ShardResult, srcs, env_names=("default", "shopify", "nscache", "fs"), datasets=None, budget: float = 3.0) -> None:
+def _sources(res: ShardResult, srcs, env_names=("default", "shopify", "nscache", "fs"), datasets=None, budget: float = 3.0, modes: tuple[str, ...] = ("render",)) -> None:
     datasets = datasets or DATASETS[:2]
     for src in srcs:
         res.cases += 1
         for en in env_names:
-            for sig, extra, obs in run_source(en, src, datasets, res, budget):
+            for sig, extra, obs in run_source(en, src, datasets, res, budget, modes if en in ("default", "fs") else ("render",)):
                 res.violation(sig, {"kind": "source", "env": en, "source": src, **extra}, "returns or raises a printable LiquidError in time", obs, repro=_repro(en, src))
 
 
@@ -664,7 +671,7 @@ def run_shard(shard) -> ShardResult:
         _, _, kk, j, lo, hi = shard
         _sources(res, (c17.sigma_source(kk, i, j) for i in range(lo, hi)), env_names=("default",), datasets=DATASETS[:1])
     elif kind == "corpus":
-        _sources(res, _SP["corpus"][shard[2] : shard[3]], datasets=DATASETS)
+        _sources(res, _SP["corpus"][shard[2] : shard[3]], datasets=DATASETS, modes=("render", "render_async"))
         res.samples.append(_SP["corpus"][shard[2]][:100])
     elif kind == "mutants":
         for src in _SP["corp_m"][shard[2] : shard[3]]:
@@ -715,7 +722,7 @@ def replay(case: dict[str, Any]) -> list[dict[str, Any]]:
     envs()
     if case["kind"] == "source":
         budget = 10.0 if len(case["source"]) > 2000 else 3.0
-        for sig, extra, obs in run_source(case["env"], case["source"], DATASETS, None, budget):
+        for sig, extra, obs in run_source(case["env"], case["source"], DATASETS, None, budget, ("render", "render_async")):
             res.violation(sig, case, "returns or raises a printable LiquidError in time", obs)
     elif case["kind"] == "fsh":
         for sig, c, exp, obs in check_fs_history(tuple(tuple(o) for o in case["history"]), None):
